@@ -1,21 +1,361 @@
-//! Harnesses mounted inside `v3::codec`.
+//! Harnesses mounted inside `v3::codec` (MQTT 3.1.1): C01 round trips, C02 body decoders.
 use super::*;
+use crate::vh::{self, Rd};
 use crate::vk;
-use ntex_bytes::{BytePages, Bytes, BytesMut, ByteString};
+use ntex_bytes::{Buf, ByteString, BytePages, Bytes, BytesMut};
+use ntex_codec::{Decoder, Encoder};
+use std::num::NonZeroU16;
 
-macro_rules! body_probe {
-    ($name:ident, $fb:expr, $n:expr, $uw:expr) => {
+#[cfg(kani)]
+use crate::mvec::Vec;
+
+/// encode through the public codec, return the produced bytes
+fn enc(item: Encoded) -> Result<Bytes, crate::error::EncodeError> {
+    let codec = Codec::new();
+    let mut pages = BytePages::default();
+    let before = pages.len();
+    let r = codec.encodev(item, &mut pages);
+    match r {
+        Ok(()) => Ok(pages.freeze()),
+        Err(e) => {
+            // C09: a failed encode appends no bytes
+            assert!(pages.len() == before, "failed encode left bytes behind");
+            Err(e)
+        }
+    }
+}
+
+/// decode the frame body with the crate's per-type decoder. `first` is a CONSTANT in every
+/// harness: CBMC's symbolic execution only prunes the 13-way dispatch when the first byte is a
+/// literal (a byte read back from the output buffer is not). The frame layer (fixed header,
+/// Remaining Length, dispatch on the first byte, exact consumption) is decided separately by the
+/// fr3_* harnesses in h_v3_frame.rs for arbitrary bytes.
+fn dec_body(out: &Bytes, first: u8) -> Result<Packet, crate::error::DecodeError> {
+    let mut body = out.clone();
+    let mut r = Rd::new(out);
+    let _ = r.u8();
+    let _ = r.varint();
+    let _hdr = body.split_to(r.pos);
+    decode::decode_packet(body, first)
+}
+
+/// fixed header check by the independent reader: first byte, truthful Remaining Length
+fn rd_header<'a>(out: &'a Bytes, first: u8) -> (Rd<'a>, u32) {
+    let mut r = Rd::new(out);
+    assert!(r.u8() == first, "first byte (type + reserved flags)");
+    let rl = r.varint();
+    assert!(!r.bad);
+    assert!(rl as usize == r.left(), "Remaining Length == bytes that follow");
+    (r, rl)
+}
+
+// ---- acks: PUBACK PUBREC PUBREL PUBCOMP UNSUBACK ------------------------------------------------
+macro_rules! rt3_ack {
+    ($name:ident, $variant:ident, $first:expr) => {
         vharness! {
-            fn $name() unwind($uw) {
-                let data: [u8; $n] = vk::any_bytes::<$n>();
-                let len = vk::any_len($n);
-                let buf = vk::bytes_of(data, len);
-                let r = decode::decode_packet(buf, $fb);
-                vcover!(matches!(r, Ok(_)), "ok");
-                vcover!(matches!(r, Err(_)), "err");
+            fn $name() unwind(6) {
+                let packet_id = vh::any_nz16();
+                let pkt = Packet::$variant { packet_id };
+                let out = match enc(Encoded::Packet(pkt.clone())) { Ok(o) => o, Err(_) => { assert!(false); return; } };
+                let (mut r, rl) = rd_header(&out, $first);
+                assert!(rl == 2);
+                assert!(r.u16() == packet_id.get());
+                assert!(r.at_end() && !r.bad);
+                assert!(dec_body(&out, $first) == Ok(pkt));
+                vcover!(packet_id.get() == 0xffff, "packet id 65535");
             }
         }
     };
 }
-body_probe!(p3_sub12, 0x82, 12, 14);
-body_probe!(p3_connect16, 0x10, 16, 18);
+//@ props: C01
+//@ tier: quick
+//@ functions: v3::Codec::encodev, encode::encode, get_encoded_size, decode::decode_packet, decode_ack
+//@ bounds: packet id full width (1..=65535)
+//@ desc: v3 PUBACK round trip: spec layout 0x40 0x02 id; decode == original; consumes exactly the frame
+rt3_ack!(rt3_puback, PublishAck, 0x40);
+//@ props: C01
+//@ tier: quick
+//@ functions: v3::Codec::encodev, decode::decode_packet, decode_ack
+//@ bounds: packet id full width
+//@ desc: v3 PUBREC round trip (0x50)
+rt3_ack!(rt3_pubrec, PublishReceived, 0x50);
+//@ props: C01
+//@ tier: quick
+//@ functions: v3::Codec::encodev, decode::decode_packet, decode_ack
+//@ bounds: packet id full width
+//@ desc: v3 PUBREL round trip (0x62: reserved flag bits 0010)
+rt3_ack!(rt3_pubrel, PublishRelease, 0x62);
+//@ props: C01
+//@ tier: quick
+//@ functions: v3::Codec::encodev, decode::decode_packet, decode_ack
+//@ bounds: packet id full width
+//@ desc: v3 PUBCOMP round trip (0x70)
+rt3_ack!(rt3_pubcomp, PublishComplete, 0x70);
+//@ props: C01
+//@ tier: quick
+//@ functions: v3::Codec::encodev, decode::decode_packet, decode_ack
+//@ bounds: packet id full width
+//@ desc: v3 UNSUBACK round trip (0xB0)
+rt3_ack!(rt3_unsuback, UnsubscribeAck, 0xB0);
+
+vharness! {
+    //@ props: C01
+    //@ tier: quick
+    //@ expect: fail
+    //@ desc: reachability twin of the v3 ack round trips (claims decode never returns the packet)
+    fn twin_rt3_ack() unwind(6) {
+        let packet_id = vh::any_nz16();
+        let pkt = Packet::PublishAck { packet_id };
+        if let Ok(out) = enc(Encoded::Packet(pkt.clone())) {
+            assert!(dec_body(&out, 0x40) != Ok(pkt));
+        }
+    }
+}
+
+// ---- PINGREQ / PINGRESP / DISCONNECT ------------------------------------------------------------
+macro_rules! rt3_empty {
+    ($name:ident, $variant:ident, $first:expr) => {
+        vharness! {
+            fn $name() unwind(6) {
+                let pkt = Packet::$variant;
+                let out = match enc(Encoded::Packet(pkt.clone())) { Ok(o) => o, Err(_) => { assert!(false); return; } };
+                assert!(out.len() == 2 && out[0] == $first && out[1] == 0);
+                assert!(dec_body(&out, $first) == Ok(pkt));
+                vcover!(out.len() == 2, "two byte frame");
+            }
+        }
+    };
+}
+//@ props: C01
+//@ tier: quick
+//@ functions: v3::Codec::encodev, encode::encode, decode::decode_packet
+//@ bounds: none (no fields)
+//@ desc: v3 PINGREQ is exactly C0 00 and decodes back
+rt3_empty!(rt3_pingreq, PingRequest, 0xC0);
+//@ props: C01
+//@ tier: quick
+//@ functions: v3::Codec::encodev, encode::encode, decode::decode_packet
+//@ bounds: none (no fields)
+//@ desc: v3 PINGRESP is exactly D0 00 and decodes back
+rt3_empty!(rt3_pingresp, PingResponse, 0xD0);
+//@ props: C01
+//@ tier: quick
+//@ functions: v3::Codec::encodev, encode::encode, decode::decode_packet
+//@ bounds: none (no fields)
+//@ desc: v3 DISCONNECT is exactly E0 00 and decodes back
+rt3_empty!(rt3_disconnect, Disconnect, 0xE0);
+
+// ---- CONNACK ------------------------------------------------------------------------------------
+vharness! {
+    //@ props: C01
+    //@ tier: quick
+    //@ functions: v3::Codec::encodev, encode::encode, decode::decode_packet, decode_connect_ack_packet, ConnectAckReason prim_enum conversions
+    //@ bounds: session_present symbolic; all 7 return codes
+    //@ desc: v3 CONNACK round trip: 0x20 0x02 flags code (code value per spec table 3.1, independent of the crate's enum discriminants)
+    fn rt3_connack() unwind(6) {
+        let code = vk::any_u8();
+        vk::assume(code <= 6);
+        let return_code = match code {
+            0 => ConnectAckReason::ConnectionAccepted,
+            1 => ConnectAckReason::UnacceptableProtocolVersion,
+            2 => ConnectAckReason::IdentifierRejected,
+            3 => ConnectAckReason::ServiceUnavailable,
+            4 => ConnectAckReason::BadUserNameOrPassword,
+            5 => ConnectAckReason::NotAuthorized,
+            _ => ConnectAckReason::Reserved,
+        };
+        let session_present = vk::any_bool();
+        let pkt = Packet::ConnectAck(ConnectAck { return_code, session_present });
+        let out = match enc(Encoded::Packet(pkt.clone())) { Ok(o) => o, Err(_) => { assert!(false); return; } };
+        let (mut r, rl) = rd_header(&out, 0x20);
+        assert!(rl == 2);
+        assert!(r.u8() == session_present as u8);
+        assert!(r.u8() == code);
+        assert!(r.at_end() && !r.bad);
+        assert!(dec_body(&out, 0x20) == Ok(pkt));
+        vcover!(session_present && code == 5, "session present, not authorized");
+    }
+}
+
+// ---- SUBACK -------------------------------------------------------------------------------------
+fn any_sub_code() -> (SubscribeReturnCode, u8) {
+    let c = vk::any_u8();
+    vk::assume(c <= 3);
+    match c {
+        0 => (SubscribeReturnCode::Success(QoS::AtMostOnce), 0x00),
+        1 => (SubscribeReturnCode::Success(QoS::AtLeastOnce), 0x01),
+        2 => (SubscribeReturnCode::Success(QoS::ExactlyOnce), 0x02),
+        _ => (SubscribeReturnCode::Failure, 0x80),
+    }
+}
+
+vharness! {
+    //@ props: C01
+    //@ tier: quick
+    //@ functions: v3::Codec::encodev, encode::encode, decode::decode_packet, decode_subscribe_ack_packet
+    //@ bounds: packet id full width; 0..=3 return codes, each of the 4 legal values
+    //@ desc: v3 SUBACK round trip: 0x90 RL id codes (0,1,2,0x80 per spec 3.9.3)
+    fn rt3_suback() unwind(6) {
+        let packet_id = vh::any_nz16();
+        let n = vk::any_len(3);
+        let mut status = Vec::new();
+        let mut wire = [0u8; 3];
+        let mut i = 0;
+        while i < n {
+            let (c, w) = any_sub_code();
+            status.push(c);
+            wire[i] = w;
+            i += 1;
+        }
+        let pkt = Packet::SubscribeAck { packet_id, status };
+        let out = match enc(Encoded::Packet(pkt.clone())) { Ok(o) => o, Err(_) => { assert!(false); return; } };
+        let (mut r, rl) = rd_header(&out, 0x90);
+        assert!(rl as usize == 2 + n);
+        assert!(r.u16() == packet_id.get());
+        assert!(r.expect_raw(&wire[..n]));
+        assert!(r.at_end() && !r.bad);
+        assert!(dec_body(&out, 0x90) == Ok(pkt));
+        vcover!(n == 3, "three return codes");
+        vcover!(n == 0, "no return code");
+    }
+}
+
+// ---- SUBSCRIBE / UNSUBSCRIBE --------------------------------------------------------------------
+vharness! {
+    //@ props: C01
+    //@ tier: quick
+    //@ functions: v3::Codec::encodev, encode::encode, get_encoded_subscribe_size, decode::decode_packet, decode_subscribe_packet
+    //@ bounds: packet id full width; 0..=2 topic filters, each a well-formed UTF-8 string of 0..=2 bytes, each QoS 0..=2
+    //@ unwindset: utf8_is_valid=4 slice_eq=4 decode_subscribe_packet=4 expect_lp=4
+    //@ assumes: filter bytes are well-formed UTF-8 (ByteString precondition)
+    //@ desc: v3 SUBSCRIBE round trip: 0x82 RL id (len filter qos)*
+    fn rt3_subscribe() unwind(6) {
+        let packet_id = vh::any_nz16();
+        let n = vk::any_len(2);
+        let mut topic_filters = Vec::new();
+        let mut i = 0;
+        while i < n {
+            topic_filters.push((vh::any_str::<2>(), vh::any_qos()));
+            i += 1;
+        }
+        let pkt = Packet::Subscribe { packet_id, topic_filters: topic_filters.clone() };
+        let out = match enc(Encoded::Packet(pkt.clone())) { Ok(o) => o, Err(_) => { assert!(false); return; } };
+        let (mut r, rl) = rd_header(&out, 0x82);
+        assert!(r.u16() == packet_id.get());
+        let mut i = 0;
+        while i < n {
+            let (f, q) = &topic_filters[i];
+            assert!(r.expect_lp(f.as_bytes()));
+            assert!(r.u8() == vh::qos_num(*q));
+            i += 1;
+        }
+        assert!(r.at_end() && !r.bad);
+        assert!(dec_body(&out, 0x82) == Ok(pkt));
+        vcover!(n == 2, "two filters");
+        vcover!(n == 2 && topic_filters[1].0.len() == 2, "second filter two bytes");
+    }
+}
+
+vharness! {
+    //@ props: C01
+    //@ tier: quick
+    //@ functions: v3::Codec::encodev, encode::encode, get_encoded_unsubscribe_size, decode::decode_packet, decode_unsubscribe_packet
+    //@ bounds: packet id full width; 0..=2 topic filters, each well-formed UTF-8 of 0..=2 bytes
+    //@ unwindset: utf8_is_valid=4 slice_eq=4 decode_unsubscribe_packet=4 expect_lp=4
+    //@ assumes: filter bytes are well-formed UTF-8
+    //@ desc: v3 UNSUBSCRIBE round trip: 0xA2 RL id (len filter)*
+    fn rt3_unsubscribe() unwind(6) {
+        let packet_id = vh::any_nz16();
+        let n = vk::any_len(2);
+        let mut topic_filters = Vec::new();
+        let mut i = 0;
+        while i < n {
+            topic_filters.push(vh::any_str::<2>());
+            i += 1;
+        }
+        let pkt = Packet::Unsubscribe { packet_id, topic_filters: topic_filters.clone() };
+        let out = match enc(Encoded::Packet(pkt.clone())) { Ok(o) => o, Err(_) => { assert!(false); return; } };
+        let (mut r, rl) = rd_header(&out, 0xA2);
+        assert!(r.u16() == packet_id.get());
+        let mut i = 0;
+        while i < n {
+            assert!(r.expect_lp(topic_filters[i].as_bytes()));
+            i += 1;
+        }
+        assert!(r.at_end() && !r.bad);
+        assert!(dec_body(&out, 0xA2) == Ok(pkt));
+        vcover!(n == 2, "two filters");
+    }
+}
+
+// ---- CONNECT ------------------------------------------------------------------------------------
+fn any_connect3<const S: usize>() -> Connect {
+    let last_will = if vk::any_bool() {
+        Some(LastWill {
+            qos: vh::any_qos(),
+            retain: vk::any_bool(),
+            topic: vh::any_str::<S>(),
+            message: vh::any_bin::<S>(),
+        })
+    } else {
+        None
+    };
+    Connect {
+        clean_session: vk::any_bool(),
+        keep_alive: vk::any_u16(),
+        last_will,
+        client_id: vh::any_str::<S>(),
+        username: vh::any_opt_str::<S>(),
+        password: vh::any_opt_bin::<S>(),
+    }
+}
+
+macro_rules! rt3_connect {
+    ($name:ident, $s:expr) => {
+        vharness! {
+            fn $name() unwind(6) {
+                let c = any_connect3::<$s>();
+                // 3.1.3-7/-8: a zero-length client id requires clean session (the decoder enforces it)
+                vk::assume(!c.client_id.is_empty() || c.clean_session);
+                let pkt = Packet::Connect(Box::new(c.clone()));
+                let out = match enc(Encoded::Packet(pkt.clone())) { Ok(o) => o, Err(_) => { assert!(false); return; } };
+                let (mut r, rl) = rd_header(&out, 0x10);
+                assert!(r.expect_lp(b"MQTT"));
+                assert!(r.u8() == 4, "protocol level 4");
+                let mut flags = 0u8;
+                if c.username.is_some() { flags |= 0x80; }
+                if c.password.is_some() { flags |= 0x40; }
+                if let Some(w) = &c.last_will {
+                    flags |= 0x04;
+                    if w.retain { flags |= 0x20; }
+                    flags |= vh::qos_num(w.qos) << 3;
+                }
+                if c.clean_session { flags |= 0x02; }
+                assert!(r.u8() == flags, "connect flags (bit 0 reserved = 0)");
+                assert!(r.u16() == c.keep_alive);
+                assert!(r.expect_lp(c.client_id.as_bytes()));
+                if let Some(w) = &c.last_will {
+                    assert!(r.expect_lp(w.topic.as_bytes()));
+                    assert!(r.expect_lp(&w.message));
+                }
+                if let Some(u) = &c.username { assert!(r.expect_lp(u.as_bytes())); }
+                if let Some(p) = &c.password { assert!(r.expect_lp(p)); }
+                assert!(r.at_end() && !r.bad);
+                assert!(dec_body(&out, 0x10) == Ok(pkt));
+                vcover!(c.last_will.is_some() && c.username.is_some() && c.password.is_some(), "will + username + password");
+                vcover!(c.last_will.is_none() && c.username.is_none() && c.password.is_none(), "bare connect");
+                vcover!(c.client_id.len() == $s, "client id at the length bound");
+            }
+        }
+    };
+}
+//@ props: C01
+//@ tier: quick
+//@ functions: v3::Codec::encodev, encode::encode, encode_connect, get_encoded_size, decode::decode_packet, decode_connect_packet
+//@ bounds: every bool/Option/QoS symbolic, keep-alive full width; client id, will topic, will message, username, password each 0..=2 bytes
+//@ unwindset: utf8_is_valid=4 slice_eq=6 expect_lp=6
+//@ assumes: strings well-formed UTF-8; empty client id only with clean session (else the spec and the decoder reject the packet)
+//@ mem: 8  timeout: 900
+//@ desc: v3 CONNECT round trip incl. flag byte layout per spec 3.1.2.3
+rt3_connect!(rt3_connect, 2);
+
